@@ -1,3 +1,4 @@
+#![allow(dead_code)]
 //! vmon — runtime monitors for energiacte/cteepbd (see /verif/DESIGN.md)
 //!
 //!   vmon <Cxx> --tier quick|thorough [--seed N] [--cli-debug PATH] [--cli-release PATH] [--scale X]
